@@ -2150,6 +2150,11 @@ func (d *Data) updateMaxLabel(v dvid.VersionID, label uint64) (changed bool, err
 	d.mlMu.Lock()
 	defer d.mlMu.Unlock()
 
+	// recheck under the write lock since a concurrent update could have raised it further.
+	if curMax, found = d.MaxLabel[v]; found && curMax >= label {
+		changed = false
+		return
+	}
 	d.MaxLabel[v] = label
 	if err = d.persistMaxLabel(v); err != nil {
 		err = fmt.Errorf("updateMaxLabel of data %q: %v", d.DataName(), err)
@@ -2182,9 +2187,12 @@ func (d *Data) updateBlockMaxLabel(v dvid.VersionID, block *labels.Block) {
 	}
 	if changed {
 		d.mlMu.Lock()
-		d.MaxLabel[v] = curMax
-		if err := d.persistMaxLabel(v); err != nil {
-			dvid.Errorf("updateBlockMaxLabel of data %q: %v\n", d.DataName(), err)
+		// recheck under the write lock since a concurrent update could have raised it further.
+		if lockedMax, found := d.MaxLabel[v]; !found || curMax > lockedMax {
+			d.MaxLabel[v] = curMax
+			if err := d.persistMaxLabel(v); err != nil {
+				dvid.Errorf("updateBlockMaxLabel of data %q: %v\n", d.DataName(), err)
+			}
 		}
 		if curMax > d.MaxRepoLabel {
 			d.MaxRepoLabel = curMax
